@@ -290,6 +290,25 @@ func (c *Ctx) oauthPIDCodec() {
 	if !okW {
 		return
 	}
+	// what is returned is the formatted text itself: a post-processing step
+	// (case folding, trimming, truncation) maps distinct (provider, uid) pairs
+	// to one identifier
+	for _, b := range mk.Blocks {
+		for _, in := range b.Instrs {
+			ret, ok := in.(*ssa.Return)
+			if !ok || len(ret.Results) != 1 {
+				continue
+			}
+			direct := false
+			if call, _ := CallOf(ret.Results[0]); call != nil && Callee(call) == "fmt.Sprintf" {
+				direct = true
+			}
+			if viaConcat && concatFormat(ret.Results[0], mk, 0) != "" {
+				direct = true
+			}
+			r.Check(direct, "C14.codec", FuncName(mk), "identifier returned as formatted", posf(c, ret), "no transformation after formatting", "the identifier is transformed after it was formatted ("+SafeString(ret.Results[0])+"): distinct (provider, uid) pairs can collapse into one account identifier, and ParseOAuth2PID no longer returns what the provider reported")
+		}
+	}
 	if viaConcat {
 		// concatFormat numbers the parameters: %[1]s must precede %[2]s
 		r.Check(strings.Index(format, "%[1]s") >= 0 && strings.Index(format, "%[1]s") < strings.Index(format, "%[2]s"), "C14.codec", FuncName(mk), "argument order", c.P.Pos(mk.Pos()), "provider then uid", "writer does not concatenate (provider, uid) in that order")
